@@ -9,7 +9,7 @@ use any_vec::traits::{Cloneable, Trait};
 use any_vec::{AnyVec, AnyVecTyped, SatisfyTraits};
 
 use crate::elem::Elem;
-use crate::track::{Track, TrackFixed};
+use crate::track::{Track, TrackFixed, TrackTight};
 use crate::types::CapCall;
 
 #[derive(Clone, Copy, Debug, PartialEq, Eq)]
@@ -25,6 +25,8 @@ pub trait MX: MemBuilder + 'static {
     const RESIZABLE: bool = false;
     const SIZEABLE: bool = false;
     const RAWPARTS: bool = false;
+    /// `expand` promises geometric growth (Heap, Track); TrackTight deliberately does not
+    const AMORTISED: bool = true;
     /// backend for auxiliary vectors B / C of an edge
     type Aux: MX;
     fn make() -> Self;
@@ -106,6 +108,15 @@ impl MX for Track {
     type Aux = Track;
     fn make() -> Self { Track }
     fn name() -> String { "Track".into() }
+    resizable_impl!();
+}
+
+impl MX for TrackTight {
+    const KIND: BK = BK::Track;
+    type Aux = Track;
+    fn make() -> Self { TrackTight }
+    const AMORTISED: bool = false;
+    fn name() -> String { "TrackTight".into() }
     resizable_impl!();
 }
 
